@@ -25,12 +25,12 @@ const fn b(world: &'static str, profile: &'static str, quick: u64, thorough: u64
 /// seed gives the same verdict on any machine.
 pub fn plan(prop: &str) -> Vec<Batch> {
     match prop {
-        "C02" => vec![b("A", "weak", 60_000, 1_500_000), b("A", "sc", 16_000, 300_000), b("A", "weakkill", 20_000, 500_000), b("A", "busy", 20_000, 400_000)],
-        "C03" => vec![b("A", "sc", 40_000, 800_000), b("A", "weak", 30_000, 600_000), b("A", "sckill", 16_000, 400_000), b("A", "sleeper", 14, 112), b("A", "busy", 10_000, 200_000)],
+        "C02" => vec![b("A", "deadwriter", 16, 320), b("A", "weak", 60_000, 1_500_000), b("A", "sc", 16_000, 300_000), b("A", "weakkill", 20_000, 500_000), b("A", "busy", 20_000, 400_000)],
+        "C03" => vec![b("A", "sc", 40_000, 800_000), b("A", "weak", 30_000, 600_000), b("A", "sckill", 16_000, 400_000), b("A", "sleeper", 28, 224), b("A", "busy", 10_000, 200_000)],
         "C04" => vec![b("A", "sckill", 30_000, 600_000), b("A", "weakkill", 20_000, 500_000), b("A", "corrupt", 8_000, 200_000), b("B", "restart", 8_000, 200_000)],
-        "C11" => vec![b("A", "sweep", 4_096, 4_096), b("A", "sckill", 20_000, 400_000), b("A", "sc", 10_000, 200_000), b("A", "corrupt", 8_000, 200_000)],
+        "C11" => vec![b("A", "sweep", 6_144, 6_144), b("A", "sckill", 20_000, 400_000), b("A", "sc", 10_000, 200_000), b("A", "corrupt", 8_000, 200_000)],
         "C16" => vec![b("A", "corrupt", 60_000, 1_500_000), b("A", "sckill", 6_000, 100_000), b("B", "abi", 4_000, 80_000)],
-        "C18" => vec![b("A", "deadwriter", 16, 480), b("A", "flood", 4, 64), b("A", "busy", 20_000, 400_000), b("A", "sckill", 20_000, 400_000), b("A", "weakkill", 10_000, 300_000)],
+        "C18" => vec![b("A", "deadwriter", 48, 640), b("A", "flood", 4, 64), b("A", "busy", 20_000, 400_000), b("A", "sckill", 20_000, 400_000), b("A", "weakkill", 10_000, 300_000)],
         "C17" => vec![b("A", "sc", 8_000, 100_000), b("A", "corrupt", 8_000, 100_000), b("B", "abi", 16_000, 400_000), b("B", "synthetic", 16_000, 400_000)],
         "C01" => vec![b("B", "pipeline", 24_000, 600_000), b("B", "restart", 12_000, 300_000), b("B", "tight", 16_000, 400_000), b("B", "coldstart", 8_000, 200_000), b("B", "outage", 8_000, 200_000)],
         "C05" => vec![b("B", "synthetic", 30_000, 800_000), b("B", "pipeline", 12_000, 300_000), b("B", "tight", 6_000, 100_000)],
@@ -39,8 +39,8 @@ pub fn plan(prop: &str) -> Vec<Batch> {
         "C08" => vec![b("B", "pipeline", 16_000, 400_000), b("B", "outage", 16_000, 400_000), b("B", "restart", 8_000, 200_000), b("B", "leap", 8_000, 200_000)],
         "C09" => vec![b("B", "coldstart", 24_000, 600_000), b("B", "restart", 12_000, 300_000), b("B", "outage", 8_000, 200_000)],
         "C10" => vec![b("B", "leap", 30_000, 800_000), b("B", "pipeline", 8_000, 200_000)],
-        "C12" => vec![b("B", "tight", 24_000, 600_000), b("B", "pipeline", 12_000, 300_000)],
-        "C13" => vec![b("B", "outage", 30_000, 800_000), b("B", "coldstart", 12_000, 300_000), b("B", "pipeline", 6_000, 100_000)],
+        "C12" => vec![b("B", "tight", 24_000, 600_000), b("B", "pipeline", 12_000, 300_000), b("B", "synthetic", 8_000, 200_000)],
+        "C13" => vec![b("B", "epoch", 4, 32), b("B", "outage", 30_000, 800_000), b("B", "coldstart", 12_000, 300_000), b("B", "pipeline", 6_000, 100_000)],
         "C14" => vec![b("B", "synthetic", 40_000, 1_000_000), b("B", "pipeline", 8_000, 200_000)],
         "C15" => vec![b("B", "workerdeath", 30_000, 800_000), b("B", "restart", 6_000, 150_000), b("B", "outage", 6_000, 150_000)],
         _ => vec![],
